@@ -850,6 +850,12 @@ void File::uncompressedFileReadThread(File * file) {
         file->m_readWriteQueue.setFileSize(file->m_readWriteQueue.tellp());
     } catch (...) {
         file->m_uncompressedFileThreadException = std::current_exception();
+
+        /* the thread ends here: still tell the application that no more objects will come,
+         * and do not leave the decompression thread waiting for buffer space */
+        file->m_uncompressedFileThreadRunning = false;
+        file->m_readWriteQueue.setFileSize(file->m_readWriteQueue.tellp());
+        file->m_uncompressedFile.abort();
     }
 }
 
@@ -868,6 +874,12 @@ void File::uncompressedFileWriteThread(File * file) {
         file->m_uncompressedFile.setFileSize(file->m_uncompressedFile.tellp());
     } catch (...) {
         file->m_uncompressedFileThreadException = std::current_exception();
+
+        /* the thread ends here: let the compression thread finish, and do not leave the
+         * application waiting for queue space */
+        file->m_uncompressedFileThreadRunning = false;
+        file->m_uncompressedFile.setFileSize(file->m_uncompressedFile.tellp());
+        file->m_readWriteQueue.abort();
     }
 }
 
@@ -890,6 +902,10 @@ void File::compressedFileReadThread(File * file) {
         file->m_uncompressedFile.setFileSize(file->m_uncompressedFile.tellp());
     } catch (...) {
         file->m_compressedFileThreadException = std::current_exception();
+
+        /* the thread ends here: still declare the end of the uncompressed stream */
+        file->m_compressedFileThreadRunning = false;
+        file->m_uncompressedFile.setFileSize(file->m_uncompressedFile.tellp());
     }
 }
 
@@ -908,6 +924,10 @@ void File::compressedFileWriteThread(File * file) {
         // There is no CompressedFile::setFileSize that need to be set. std::fstream handles this already.
     } catch (...) {
         file->m_compressedFileThreadException = std::current_exception();
+
+        /* the thread ends here: do not leave the encoding thread waiting for buffer space */
+        file->m_compressedFileThreadRunning = false;
+        file->m_uncompressedFile.abort();
     }
 }
 
